@@ -134,6 +134,17 @@ example : osRenameView 0o22 (fun p => if p = 0 then some .dir else if p = 1 then
         { tmp := 1, dst := 0 } [.commit false false false]).2.2 =
     [.base (.close 1), .base (.unlink 1)] := by decide
 
+/-- **an occupied temporary name is refused** (`O_EXCL`): on the file system with node kinds the exclusive create of a name
+    that exists — as a file, a directory, or a (dangling) link — changes nothing, and `CreateWithMode` returns no handle.
+    (The flat model of `Props/C14.lean` takes the temporary name as "the first name `O_EXCL` accepted"; its complete form
+    `createWithMode` issues `createExcl` on free names only — `create_touches_no_existing_entry`.) -/
+theorem occupied_temp_name_is_refused (u : Nat) (fs : KFS) (tmp dst par : Path) (mode : Nat) (h : (fs tmp).isSome = true) :
+    applyActK u fs (.base (.createExcl tmp mode)) = fs ∧ (createK tmp dst par mode fs).1 = none ∧
+    runK u fs (createK tmp dst par mode fs).2 = fs := by
+  refine ⟨by simp [applyActK, h], ?_, ?_⟩
+  · unfold createK; split <;> simp [h]
+  · unfold createK; split <;> simp [h, runK, applyActK]
+
 /-- **the destination's directory is missing (or is not a directory)**: `CreateWithMode` fails on its first system call,
     no handle comes back, nothing is created or changed; and when `CreateWithMode` does return a handle, the temporary name
     was free and the directory now holds it as an empty file — the starting point of the theorems above -/
